@@ -313,7 +313,6 @@ static inline void setbit(uint8_t* b, size_t i, bool v) {
     b[i >> 3] &= (uint8_t)~m;
 }
 static void put(bytes& o, const bytes& b) { o.insert(o.end(), b.begin(), b.end()); }
-static void put(bytes& o, const uint8_t* b, size_t n) { o.insert(o.end(), b, b + n); }
 static int clog2(int x) {
   int b = 0;
   while ((1 << b) < x)
@@ -665,12 +664,6 @@ struct SeedTree {
   std::vector<uint8_t> have;
   SeedTree(int leaves) : sh(leaves), data(sh.numNodes), have(sh.numNodes, 0) {}
 };
-bytes Hk(const Params& p, std::initializer_list<const bytes*> parts, size_t outlen) {
-  Shake s(shake_bits(p));
-  for (auto* b : parts)
-    s.absorb(*b);
-  return s.squeeze(outlen);
-}
 SeedTree gen_seed_tree(const Params& p, int leaves, const bytes& root, const bytes& salt, int rep) {
   SeedTree t(leaves);
   t.data[0] = root;
@@ -749,6 +742,40 @@ struct KRound {
   KRound() : st(16) {}
 };
 
+} // namespace
+Challenge kkw_expand_challenge(const Params& p, const bytes& sigH) {
+  const int T = p.T, N = p.N, hb = shake_bits(p);
+  bytes h = sigH;
+  Challenge out;
+  std::vector<uint16_t>&Cl = out.C, &Pl = out.P;
+  int bC = clog2(T), bP = clog2(N);
+  auto rehash = [&] {
+    Shake s(hb);
+    s.absorb_u8(1);
+    s.absorb(h);
+    h = s.squeeze(p.dig);
+  };
+  while ((int)Cl.size() < p.u) {
+    for (unsigned ch : chunks(h, bC)) {
+      if ((int)ch < T && std::find(Cl.begin(), Cl.end(), (uint16_t)ch) == Cl.end())
+        Cl.push_back((uint16_t)ch);
+      if ((int)Cl.size() == p.u)
+        break;
+    }
+    rehash();
+  }
+  while ((int)Pl.size() < p.u) {
+    for (unsigned ch : chunks(h, bP)) {
+      if ((int)ch < N)
+        Pl.push_back((uint16_t)ch);
+      if ((int)Pl.size() == p.u)
+        break;
+    }
+    rehash();
+  }
+  return out;
+}
+namespace {
 bytes kkw_sign(const Params& p, const bytes& sk, const bytes& Cc, const bytes& pt, const bytes& msg,
                Trace* tr, const Challenge* forced) {
   const int n = p.n, T = p.T, N = p.N, hb = shake_bits(p);
@@ -895,32 +922,8 @@ bytes kkw_sign(const Params& p, const bytes& sk, const bytes& Cc, const bytes& p
     h = s.squeeze(p.dig);
   }
   bytes sigh = h;
-  std::vector<uint16_t> Cl, Pl;
-  int bC = clog2(T), bP = clog2(N);
-  auto rehash = [&] {
-    Shake s(hb);
-    s.absorb_u8(1);
-    s.absorb(h);
-    h = s.squeeze(p.dig);
-  };
-  while ((int)Cl.size() < p.u) {
-    for (unsigned ch : chunks(h, bC)) {
-      if ((int)ch < T && std::find(Cl.begin(), Cl.end(), (uint16_t)ch) == Cl.end())
-        Cl.push_back((uint16_t)ch);
-      if ((int)Cl.size() == p.u)
-        break;
-    }
-    rehash();
-  }
-  while ((int)Pl.size() < p.u) {
-    for (unsigned ch : chunks(h, bP)) {
-      if ((int)ch < N)
-        Pl.push_back((uint16_t)ch);
-      if ((int)Pl.size() == p.u)
-        break;
-    }
-    rehash();
-  }
+  Challenge derived = kkw_expand_challenge(p, h);
+  std::vector<uint16_t> Cl = derived.C, Pl = derived.P;
   if (forced && !forced->C.empty()) {
     Cl = forced->C;
     Pl = forced->P;
@@ -990,6 +993,79 @@ bytes sign(const Params& p, const bytes& sk, const bytes& C, const bytes& pt, co
   if (tr)
     tr->perms = perm_count - before;
   return out;
+}
+
+// =========================================================================== layouts
+bool zkb_parse_challenge(const Params& p, const bytes& sig, std::vector<uint8_t>& e) {
+  size_t cb = (2 * p.T + 7) / 8;
+  if (sig.size() < cb)
+    return false;
+  e.assign(p.T, 0);
+  for (int t = 0; t < p.T; t++) {
+    int v = (int)getbit(sig.data(), 2 * t) | ((int)getbit(sig.data(), 2 * t + 1) << 1);
+    if (v == 3)
+      return false;
+    e[t] = (uint8_t)v;
+  }
+  return true;
+}
+std::vector<Field> sig_layout(const Params& p, const bytes& sig) {
+  std::vector<Field> f;
+  size_t off = 0;
+  auto add = [&](const std::string& name, size_t len, int pad) {
+    f.push_back({name, off, len, pad});
+    off += len;
+  };
+  int viewpad = 8 * p.view - 3 * p.m * p.r, iopad = 8 * p.ios - p.n;
+  if (!p.kkw) {
+    std::vector<uint8_t> e;
+    if (!zkb_parse_challenge(p, sig, e))
+      return {};
+    size_t cb = (2 * p.T + 7) / 8;
+    add("challenge", cb, (int)(8 * cb - 2 * p.T));
+    add("salt", 32, 0);
+    for (int t = 0; t < p.T; t++) {
+      std::string r = " t=" + std::to_string(t);
+      add("commitment" + r, p.dig, 0);
+      if (p.unruh)
+        add("G" + r, p.view + p.ios + (e[t] == 0 ? p.ios : 0), 0);
+      add("view" + r, p.view, viewpad);
+      add("seed_a" + r, p.seed, 0);
+      add("seed_b" + r, p.seed, 0);
+      if (e[t] != 0)
+        add("inputshare3" + r, p.ios, iopad);
+    }
+  } else {
+    if (sig.size() < (size_t)p.dig + 32)
+      return {};
+    bytes h(sig.begin(), sig.begin() + p.dig);
+    Challenge ch = kkw_expand_challenge(p, h);
+    add("challenge", p.dig, 0);
+    add("salt", 32, 0);
+    TreeShape it(p.T), pt(p.N);
+    add("iSeedInfo", seed_revealed_nodes(it, ch.C).size() * p.seed, 0);
+    std::vector<uint16_t> missing;
+    for (int t = 0; t < p.T; t++)
+      if (std::find(ch.C.begin(), ch.C.end(), (uint16_t)t) == ch.C.end())
+        missing.push_back((uint16_t)t);
+    add("cvInfo", merkle_revealed_nodes(it, missing).size() * p.dig, 0);
+    for (int t = 0; t < p.T; t++) {
+      auto itc = std::find(ch.C.begin(), ch.C.end(), (uint16_t)t);
+      if (itc == ch.C.end())
+        continue;
+      int P = ch.P[itc - ch.C.begin()];
+      std::string r = " t=" + std::to_string(t);
+      add("seedInfo" + r, seed_revealed_nodes(pt, {(uint16_t)P}).size() * p.seed, 0);
+      if (P != p.N - 1)
+        add("aux" + r, p.view, viewpad);
+      add("input" + r, p.ios, iopad);
+      add("msgs" + r, p.view, viewpad);
+      add("C" + r, p.dig, 0);
+    }
+  }
+  if (off != sig.size())
+    return {};
+  return f;
 }
 
 // =========================================================================== M5 sizes
